@@ -152,6 +152,15 @@ func rtuLooksValid(f []byte) bool {
 	return f[len(f)-2] == byte(c) && f[len(f)-1] == byte(c>>8) || f[len(f)-2] == byte(c>>8) && f[len(f)-1] == byte(c)
 }
 
+// rtuCRCExact: the last two bytes are the CRC-16/MODBUS of the rest, low byte first (Modbus over serial line, 2.5.1.2).
+func rtuCRCExact(f []byte) bool {
+	if len(f) < 4 {
+		return false
+	}
+	c := crcModbus(f[:len(f)-2])
+	return f[len(f)-2] == byte(c) && f[len(f)-1] == byte(c>>8)
+}
+
 const chunkTO = 5 * time.Millisecond
 
 func runC19(s *Sim) {
@@ -184,9 +193,17 @@ func runC19(s *Sim) {
 	var lastResp []byte
 	unsound := false // a damaged fragment happened to carry a valid checksum: CRC cannot tell, nobody can
 	faulted := false
+	wireBad := ""
 	plan := func(dir string, frame []byte) []chunk {
 		mu.Lock()
 		defer mu.Unlock()
+		if !tcp && wireBad == "" && !rtuCRCExact(frame) {
+			// what either end puts on an RTU wire must carry the Modbus checksum (CRC-16, polynomial 0xA001, initial value
+			// 0xFFFF, low byte first) computed independently here: a peer that is not this package would drop the frame
+			// and the caller would not get the server's values
+			wireBad = fmt.Sprintf("the %s put an RTU frame on the wire whose checksum is not the Modbus CRC-16 of its content: % x (CRC-16 of the body is %#04x)",
+				dir, frame, crcModbus(frame[:max(len(frame)-2, 0)]))
+		}
 		kind := faultNext[dir]
 		delete(faultNext, dir)
 		if kind == "" {
@@ -235,9 +252,6 @@ func runC19(s *Sim) {
 					unsound = true
 				}
 				pos += len(c.data)
-			}
-			if len(cs) > 2 {
-				unsound = unsound || true && false
 			}
 			return cs
 		case "tcp-split":
@@ -406,8 +420,12 @@ func runC19(s *Sim) {
 		wantOK := true
 		judge := func(okValues bool, detail string) {
 			mu.Lock()
-			f, u := faulted, unsound
+			f, u, wb := faulted, unsound, wireBad
 			mu.Unlock()
+			if wb != "" {
+				s.Fail("C19", "wire-checksum", "%s: %s", desc, wb)
+				return
+			}
 			if uid != id {
 				if err == nil {
 					s.Fail("C19", "foreign-unit", "%s addressed to unit %d was answered although the server is unit %d", desc, uid, id)
